@@ -32,7 +32,7 @@ def case_leaf(prog, params):
     """functions that the pipeline obligations replace by an uninterpreted result (detect_mime_type) are executed here on their own
     under the same shared-state monitor, so that state hidden inside them is not missed"""
     ex = H.new_executor(prog)
-    ex.models = registry() + ex.models; ex.model_cache = {}
+    ex.models = registry() + ex.models; ex.model_cache = {}; ex.shared_static_stop = True
     cons = []
     from common import printable
     name = SymStr.fresh('leafname', params['n'], cons, exact_len=params['n'], alphabet=printable)
@@ -59,7 +59,7 @@ def case(prog, params):
     if params.get('kind') == 'leaf': return case_leaf(prog, params)
     ex = new_ex(prog)
     if params.get('kind') == 'multipart': ex.fork_read_until = 6
-    ex.models = registry() + ex.models; ex.model_cache = {}
+    ex.models = registry() + ex.models; ex.model_cache = {}; ex.shared_static_stop = True
     cons = []
     reqb, sy = C10.build_request(params, cons)
     res = {'violations': [], 'inconclusive': [], 'samples': [], 'kinds': {}, 'env_reads': set(), 'env_writes': 0}
